@@ -3,7 +3,7 @@ readers and workers; a race report (or a hang) is a concrete failing schedule.  
 the real CLI binary: the CLI built with the tag `verif` runs its hidden command `veriftrace` (real flag
 plumbing -> batcher -> extractor -> RunAggregationLoop -> histogram renderer, event log recording); the log is turned into an `atrace` case and checked by the Lean
 driver against the pipeline and aggregation-loop transition systems."""
-import os, shutil, subprocess, sys
+import os, shutil, subprocess, sys, json, hashlib, time
 sys.path.insert(0, os.path.dirname(__file__))
 from common import build_rare, run, Rand
 
@@ -98,6 +98,108 @@ def cli_trace(ctx, rnd, violations):
     return done
 
 
+LOCKSET_TABLES = ["batcher", "extractor", "ignoreSet", "objectPool", "logger", "multitermGlobals", "aggLoop", "stageState",
+                  "stageStateFuncfile", "stdlibGlobals", "stageStateExpressions", "stageStateStdmath", "compiledKeyBuilder",
+                  "expressionsGlobals", "stdmathGlobals", "aggregation", "multiterm", "termrenderers"]
+CLASS_TABLES = ["stageState", "stageStateFuncfile", "stageStateExpressions", "stageStateStdmath"]
+
+
+def lockset_broken(ctx):
+    """Static verdicts of the lockset / stage-class tables regenerated from the tree under test (Lean driver)."""
+    cases = ["C05 lockset " + t for t in LOCKSET_TABLES] + ["C05 stageclass " + t for t in CLASS_TABLES]
+    try:
+        p = subprocess.run([ctx["driver"]], input="\n".join(cases) + "\n", stdout=subprocess.PIPE, stderr=subprocess.PIPE, text=True, timeout=300)
+        out = p.stdout.split("\n")
+    except Exception as e:
+        return ["driver: " + str(e)]
+    bad = []
+    for c, a in zip(cases, out):
+        if a not in ("ok racefree", "ok mutable=."):
+            bad.append(c + " -> " + a[:400])
+    return bad
+
+
+def source_moved(ctx):
+    try:
+        want = json.load(open(os.path.join(ctx["root"], "harness", "source_fingerprints.json"))).get("C05", {})
+    except Exception:
+        return ["no fingerprints"]
+    moved = []
+    for f, h in want.items():
+        try:
+            cur = hashlib.sha256(open(os.path.join(ctx["repo"], f), "rb").read()).hexdigest()[:16]
+        except OSError:
+            cur = "absent"
+        if cur != h:
+            moved.append(f)
+    return moved
+
+
+def stage_search(ctx, violations):
+    """Search for a failing SCHEDULE of the state the workers of one compiled expression share: the correspondence
+    harness built with the race detector runs `stages` cases (>= 8 workers over {@map} {@reduce} {@for} {@filter}
+    {! math} funcs-file functions {time}, many small batches; mode d = harness goroutines on the compiled expression,
+    mode x = the real extractor), every case in a process of its own.  A race report, a worker's value that differs
+    from the sequential value, or a crash is the replay.  Budget: a smoke run normally, 25 s when a lockset table of
+    the tree under test is not race free or the mirrored sources moved (quick tier); 60 s in the thorough tier."""
+    broken = lockset_broken(ctx)
+    moved = source_moved(ctx)
+    budget = 4.0 if ctx["tier"] == "quick" else 60.0
+    if ctx["tier"] == "quick" and (broken or moved):
+        budget = 25.0
+    if os.environ.get("VERIF_C05_STAGE_BUDGET"):
+        budget = float(os.environ["VERIF_C05_STAGE_BUDGET"])
+    harn = os.path.join(ctx["root"], "harness")
+    modfile = os.path.join(os.path.dirname(ctx["bin"]), "gomod", "go.mod")
+    exe = os.path.join(ctx["work"], "corr_C05_race")
+    p = subprocess.run(["go", "build", "-race", "-modfile", modfile, "-tags", "verif c05", "-o", exe, "./corr"], cwd=harn, env=ctx["goenv"],
+                       stdout=subprocess.PIPE, stderr=subprocess.STDOUT, text=True, timeout=1200)
+    if p.returncode != 0:
+        raise RuntimeError("go build -race of the correspondence harness failed: " + p.stdout[-2000:])
+    plain = os.path.join(ctx["bin"], "corr_C05")
+    t0 = time.time()
+    done = {"d": 0, "x": 0}
+    rounds = 0
+    env = dict(os.environ, GORACE="halt_on_error=1 exitcode=66", **{k: v for k, v in ctx["goenv"].items() if k.startswith("VERIF_")})
+    while time.time() - t0 < budget and not violations:
+        rounds += 1
+        tier = "search" if (broken or moved or ctx["tier"] != "quick") else "quick"
+        rc, out, err = run([plain, "run", "C05"], inp=("C05 stagecases %s %d\n" % (tier, ctx["seed"] * 1000 + rounds)).encode(), timeout=60)
+        line = out.decode("utf8", "replace").strip()
+        if not line.startswith("ok "):
+            raise RuntimeError("stagecases: " + line[:300])
+        for case in line[3:].split("|"):
+            if time.time() - t0 >= budget:
+                break
+            case = "C05 " + case
+            try:
+                rc, out, err = run([exe, "run", "C05"], inp=(case + "\n").encode(), timeout=120, env=env)
+            except Exception as e:
+                violations.append({"key": "stage-hang", "kind": "hang", "case": case, "error": str(e),
+                                   "explanation": "workers evaluating one compiled expression did not finish"})
+                break
+            done[case.split()[2]] += 1
+            ans = out.decode("utf8", "replace").strip()
+            txt = err.decode("utf8", "replace")
+            if b"DATA RACE" in err or rc == 66:
+                i = txt.find("WARNING: DATA RACE")
+                violations.append({"key": "stage-data-race", "kind": "data-race", "case": case, "implementation": ans, "model": "ok bad=0 panics=0",
+                                   "report": txt[i:i + 3000], "lockset": broken[:4],
+                                   "replay_cmd": "echo '<case>' | GORACE=halt_on_error=1 work/C05/corr_C05_race run C05",
+                                   "explanation": "the Go race detector reported a data race while several workers evaluated one compiled expression"})
+                break
+            if rc != 0:
+                violations.append({"key": "stage-crash", "kind": "panic", "case": case, "rc": rc, "stderr": txt[-3000:], "lockset": broken[:4],
+                                   "explanation": "a worker goroutine crashed the process while several workers evaluated one compiled expression (no final render)"})
+                break
+            if ans != "ok bad=0 panics=0":
+                violations.append({"key": "stage-wrong-value", "kind": "correspondence", "case": case, "implementation": ans, "model": "ok bad=0 panics=0",
+                                   "lockset": broken[:4],
+                                   "explanation": "a worker computed a key that differs from the sequential value of the same compiled expression on the same line (or panicked)"})
+                break
+    return {"stage_cases_race": done, "stage_budget_s": budget, "stage_lockset_broken": broken[:6], "stage_source_moved": moved}
+
+
 def run_extra(ctx):
     rnd = Rand(ctx["seed"] * 7919 + 5)
     exe = build_rare(ctx, race=True)
@@ -137,7 +239,8 @@ def run_extra(ctx):
             break
     shutil.rmtree(d, ignore_errors=True)
     traced = cli_trace(ctx, rnd, violations)
-    return {"runs": done, "cli_traces_checked": traced, "violations": violations, "race_cmds": cmds[:3],
+    stage = stage_search(ctx, violations)
+    return {"runs": done, "cli_traces_checked": traced, "violations": violations, "race_cmds": cmds[:3], **stage,
             "assumptions": ["the race detector can only exhibit races on the schedules it sees; absence of a report is not a proof (the lockset theorem is)"]}
 
 
